@@ -224,4 +224,4 @@ Definition id_fuel : nat := N.to_nat 65537.
 
 Definition create_session (used : N -> bool) (count next : N) : res (N * N) :=
   if 65535 <=? count then Err else
-  id <- fst (scan_id id_fuel used next 0) ;; Ok (id, (id + 1) mod 65536).
+  id <- fst (scan_id id_fuel used next 0) ;; Ok (id, next_id id).
